@@ -385,7 +385,8 @@ def makeclusters(crys, cutoff, maxorder, exclude=()):
     # first, make lists of all our pairs within a given nn distance
     # we could modify this to use different cutoff between different chemistries...
     r2 = cutoff * cutoff
-    nmax = [int(np.round(np.sqrt(r2/crys.metric[i, i]))) + 1
+    # lattice vectors within cutoff of any two points of the cell: |n_i| <= cutoff / h_i + 1, h_i = cell height
+    nmax = [int(np.ceil(cutoff * np.sqrt(np.dot(crys.invlatt[i], crys.invlatt[i])))) + 1
             for i in range(crys.dim)]
     nranges = [range(-n, n+1) for n in nmax]
     supervect = [np.array(ntup) for ntup in itertools.product(*nranges)]
